@@ -164,10 +164,10 @@ theorem c18_layout_covers (e : Name × Name × Bool) (he : e ∈ classMap) (h : 
       (runs.flatten = fieldsOf e.2.1 cTab ∨ (e.2.2 = true ∧ ∃ tail, runs.flatten ++ tail = fieldsOf e.2.1 cTab)) :=
   layoutBad_nil_sound classMap e.2.2 e.2.1 _ _ h
 
-/-- … which is the case for every class other than the two with a known finding -/
+/-- … which is the case for every class except those whose C structure is named in a known finding -/
 theorem c18_layout_clean_classes :
-    (classMap.filter (fun e => !(classLayoutBad T e).isEmpty)).map (·.1) =
-      (knownLayoutExceptions.map (·.1)).filterMap (fun s => (classMap.find? (fun e => nameEq e.2.1 s)).map (·.1)) := by
+    classMap.all (fun e => (classLayoutBad T e).isEmpty ||
+                           knownLayoutExceptions.any (fun x => nameEq x.1 e.2.1)) = true := by
   decide +kernel
 
 /-! ### the statements are not vacuous -/
